@@ -93,9 +93,15 @@ def partially_honoured_flags(f: FuncInfo, max_paths: int = 20000) -> List[dict]:
         if any(isinstance(x, ast.Name) and x.id == name and isinstance(x.ctx, ast.Store) for x in ast.walk(f.node)):
             continue
 
+        formals = {p_.name for p_ in f.params}
+
         def ev(n, name=name):
             if isinstance(n, ast.Name) and n.id == name and isinstance(n.ctx, ast.Load):
                 return "TEST"
+            if isinstance(n, ast.Assign) and len(n.targets) == 1 and isinstance(n.targets[0], ast.Name):
+                # `R = r` (an argument handed back unchanged) is the single-return spelling of an early `return r`
+                ident = (isinstance(n.value, ast.Name) and n.value.id in formals) or isinstance(n.value, ast.Constant)
+                return ("IDENT:" if ident else "DEF:") + n.targets[0].id
             return None
         try:
             paths = PathEnumerator(ev, exc_edges=False, max_paths=max_paths).paths(f.node.body)
@@ -106,7 +112,14 @@ def partially_honoured_flags(f: FuncInfo, max_paths: int = 20000) -> List[dict]:
             if p.exit not in ("return", "fall"):
                 continue
             key = id(p.exit_node) if p.exit_node is not None else 0
-            by_ret.setdefault(key, [set(), p.exit_node])[0].add("TEST" in p.labels())
+            labs = p.labels()
+            tested = "TEST" in labs
+            rv = getattr(p.exit_node, "value", None)
+            if not tested and isinstance(rv, ast.Name):
+                last = next((l for l in reversed(labs) if l in ("IDENT:" + rv.id, "DEF:" + rv.id)), None)
+                if last is not None and last.startswith("IDENT:"):
+                    key = (key, "identity")  # an early exit written as an assignment to the single returned name
+            by_ret.setdefault(key, [set(), p.exit_node])[0].add(tested)
         mixed = [nd for k, (vals, nd) in by_ret.items() if len(vals) == 2]
         out.append(dict(flag=name, ok=not mixed, ret=mixed[0] if mixed else None, n_paths=len(paths)))
     return out
